@@ -1,4 +1,5 @@
 import Bxh.Proofs.LedgerLemmas
+import Bxh.Proofs.LedgerRollback
 /-!
 # C12 — rolling back to a retained height restores exactly that height's state
 Theorems about `rollback`, `commit`, `pruneJournals` of `Bxh.Ledger`
@@ -100,5 +101,81 @@ theorem C12_commit_keeps_window (l l' : L) (f : Flushed) (hw : Window l)
 
 /-- non-vacuity: a fresh ledger satisfies `Window` -/
 example : Window ({} : L) := by simp [Window]
+
+/-! ## Rolling back restores exactly the previous state
+
+`SameAt b x y`: the databases `x` and `y` hold the same account record, the same code and the same value under every
+storage key of address `b`.  `Coh db a acc`: the origin fields of the account object are what the database holds
+(which is how `GetAccount`, `GetState` and `Code` fill them). -/
+
+/-- **one block**: a block's dirty accounts are flushed (`FlushDirtyData`) and committed (`Commit`) as height `maxJ + 1`;
+rolling the ledger back to the previous height (`RollbackState`) then restores, for every address, every account
+record, every code entry and every storage key of the state store — whatever the block wrote, deleted or created -/
+theorem C12_rollback_restores_previous_block (H : RootPre → String) (l l1 l2 : L)
+    (hnd : (l.accounts.map (·.1)).Nodup)
+    (hcoh : ∀ p ∈ l.accounts, Coh l.db p.1 (loadOrigin l p.1 p.2))
+    (hc : commit (flush H l).1 (l.maxJ + 1) (flush H l).2 = some l1)
+    (hr : rollback l1 l.maxJ = .ok l2) (b : Addr) : SameAt b l2.db l.db := by
+  obtain ⟨bj, hbj, ha, hs, hcd, hj, hm⟩ := commit_db _ _ _ _ hc
+  obtain ⟨bj', hbj', hent⟩ := flush_journal H l
+  rw [hbj] at hbj'
+  injection hbj' with hbj'
+  subst hbj'
+  obtain ⟨r1, r2, r3⟩ := rollback_one l1 l2 l.maxJ bj hm hj hr
+  have hsame : ∀ b, SameAt b l1.db (commits (flushItems l) l.db) := by
+    intro b
+    rw [flush_accounts] at ha hs hcd
+    exact ⟨by rw [ha]; rfl, by rw [hcd]; rfl, fun k => by rw [hs]; rfl⟩
+  have hnd' : ((flushItems l).map (·.1)).Nodup := (flushItems_sublist l l.accounts).nodup hnd
+  have hcoh' : ∀ p ∈ flushItems l, Coh l.db p.1 p.2 := by
+    intro p hp
+    obtain ⟨acc, hmem, he⟩ := flushItems_mem l p hp
+    rw [he]
+    exact hcoh (p.1, acc) hmem
+  have := reverts_commits (flushItems l) l.db l1.db hnd' hcoh' hsame b
+  unfold reverts at this
+  rw [← hent] at this
+  exact ⟨by rw [r1]; exact this.1, by rw [r3]; exact this.2.1, fun k => by rw [r2]; exact this.2.2 k⟩
+
+/-- **any number of blocks** (state store level): applying the journals of the blocks, newest first, to a database that
+holds what their commits left gives back everything the database held before the first of them -/
+theorem C12_reverting_journals_restores_any_height (bs : List (List Item)) (db D2 : DB) (hcoh : CohBlocks db bs)
+    (hsame : ∀ b, SameAt b D2 (commitBlocks bs db)) (b : Addr) : SameAt b (revertBlocks bs D2) db :=
+  revertBlocks_commitBlocks bs db D2 hcoh hsame b
+
+/-! non-vacuity: a ledger at height 3 whose block changes the balance and nonce of account 1, deletes its key `k`, creates
+its key `k2` and creates account 2 meets the hypotheses; the commit as height 4 and the rollback to 3 both succeed -/
+section Example
+def exI15 : Inner := { nonce := 1, balance := 5 }
+def exI27 : Inner := { nonce := 2, balance := 7 }
+def exI09 : Inner := { nonce := 0, balance := 9 }
+def exBj3 : BlockJournal := { entries := [], root := "r3" }
+def exDb : DB := { acct := [(1, exI15)], state := [((1, "k"), "v")], journals := [(3, exBj3)], minH := 3, maxH := 3 }
+def exAcc1 : Acct := { originAcc := some exI15, dirtyAcc := some exI27, originState := [("k", some "v"), ("k2", none)], dirtyState := [("k", none), ("k2", some "w")] }
+def exAcc2 : Acct := { dirtyAcc := some exI09 }
+def exL : L := { accounts := [(1, exAcc1), (2, exAcc2)], db := exDb, minJ := 3, maxJ := 3, prevRoot := "r3" }
+def exH : RootPre → String := fun _ => "r4"
+
+example : (exL.accounts.map (·.1)).Nodup ∧ (∀ p ∈ exL.accounts, Coh exL.db p.1 (loadOrigin exL p.1 p.2)) := by
+  refine ⟨by decide, ?_⟩
+  intro p hp
+  simp only [exL, List.mem_cons, List.mem_nil_iff, or_false] at hp
+  rcases hp with rfl | rfl
+  · refine ⟨by decide, ?_, by decide⟩
+    intro q hq _
+    have hd : (loadOrigin exL 1 exAcc1).dirtyState = [("k", none), ("k2", some "w")] := by decide
+    rw [hd] at hq
+    simp only [List.mem_cons, List.mem_nil_iff, or_false] at hq
+    rcases hq with rfl | rfl <;> decide
+  · refine ⟨by decide, ?_, by decide⟩
+    intro q hq _
+    have hd : (loadOrigin exL 2 exAcc2).dirtyState = [] := by decide
+    rw [hd] at hq
+    cases hq
+
+example : ∃ l1 l2, commit (flush exH exL).1 (exL.maxJ + 1) (flush exH exL).2 = some l1 ∧ rollback l1 exL.maxJ = .ok l2 ∧
+    l1.db.state = [((1, "k2"), "w")] ∧ l2.db.state = [((1, "k"), "v")] ∧ l2.db.acct = [(1, exI15)] := by
+  refine ⟨_, _, rfl, rfl, ?_, ?_, ?_⟩ <;> decide
+end Example
 
 end Bxh.Props.C12
